@@ -836,16 +836,18 @@ class C11Observer:
     def after(self, step, op, g, exc, snap, prev, cur, info=None):
         name = op[0]
         suffix = (info or {}).get('suffix', '')
-        if snap is None or exc is not None:
+        if snap is None:
             return
         # the statement presupposes a consistent, valid, conforming start geometry
         if not consistent(prev) or not mesh_valid(prev) or snap['hanging']:
             return
         self.checked += 1
         self.stats[name] = self.stats.get(name, 0) + 1
+        raised = '!' + exc if exc is not None else ''
 
         def bad(key, what):
-            self.violations.append({'key': '%s@%s%s' % (key, name, suffix), 'what': 'after %s: %s' % (name, what), 'step': step})
+            self.violations.append({'key': '%s@%s%s%s' % (key, name, raised, suffix),
+                                    'what': 'after %s%s: %s' % (name, ' (which raised %s)' % exc if exc else '', what), 'step': step})
 
         # when every coordinate is a small dyadic number the real code's mid-side positions are exact and
         # equalities are demanded exactly; otherwise (shipped geometries, rotations) rounding of the node
@@ -893,6 +895,8 @@ class C11Observer:
         xv = exact_volume(g)
         if not (xv == snap['xvolume'] if dyadic and name != 'refine_layers' else close(xv, snap['xvolume'], Fraction(1, 10 ** 9))):
             bad('volume-exact', 'rock volume computed from polygons, layers and surfaces is %s, before %s' % (float(xv), float(snap['xvolume'])))
+        if exc is not None:
+            return        # the operation gave up half way: only the totals can be judged
         if snap['volume'] is not None and not cur['namelists']:
             try:
                 with quiet():
